@@ -136,10 +136,10 @@ def gen_instance(rng, sw=None, thorough=False):
     if na == 3 and rng.random() < 0.15:
         n3 = rng.randint(n2, n2 + 2)      # more lecturers than projects
     if shape == 'many-students':       # two-digit student ids, short lists
-        n1 = rng.randint(8, 10)
+        n1 = rng.randint(8, 13)
     if shape == 'wide-both':           # two-digit ids on both sides
-        n1 = rng.randint(11, 12)
-        n2 = rng.randint(11, 12)
+        n1 = rng.randint(11, 13)
+        n2 = rng.randint(11, 13)
         n3 = rng.randint(1, 3) if na == 3 else n2
     if shape == 'big':                 # real-CBC lane at scale, no enumeration
         n1 = rng.randint(10, 24) if rng.random() < 0.75 else \
